@@ -8,6 +8,10 @@
    never written; the series consists of empty non-final fragments). *)
 From Dnp3V Require Import Base.Bytes Outstation.DbTypes Outstation.StaticDb Outstation.StaticDbProofs.
 From Coq Require Import Sorting.Sorted.
+(* the session level: the response series on the wire (Outstation/SessionC11Proofs.v), and its
+   composition with the database model (Outstation/Full.v) *)
+From Dnp3V Require Import Outstation.Database Outstation.Session Outstation.Full.
+From Dnp3V Require Import Outstation.SessionLemmas_c11 Outstation.SessionC11Proofs.
 Open Scope N_scope.
 
 Theorem C11_series_exactly_once : forall budgets d,
@@ -84,6 +88,151 @@ Theorem C11_wf_reachable : forall ms c0 ops, sdb_wf (fold_left sdb_step ops (sdb
 Proof. exact wf_reachable. Qed.
 Print Assumptions C11_wf_reachable.
 
+(* ---- session level: the response series (model: Outstation/Session.v; every configuration, every
+   history of events, every answer of the environment).  `ev_cons`: the digest of a received fragment
+   carries the function code found in its bytes - the only hypothesis on events. ---- *)
+
+(* the first fragment of the response to a READ taken from idle: FIR, the request's sequence number,
+   RESPONSE, no UNS; FIN iff the database answered `complete`; CON iff not FIN, or events, or a
+   confirm-mandatory broadcast to report; the solicited confirm wait is entered exactly when CON is set,
+   for that sequence number, with the deadline o_confirm_ms from now *)
+Theorem C11_first_fragment : forall cfg s from bytes d fid ctl hdrs rh v complete has_events body c1 c2 c3 ovf rest s' o,
+  to_treq cfg from d = TqRequest ctl fn_read (ObjOk hdrs rh) ->
+  s_answers s = AIin2 v :: AWrite complete has_events body :: AEvinfo c1 c2 c3 ovf :: rest ->
+  handle_from_idle cfg s from None bytes d fid = (s', o) ->
+  let seq := ctl_seq ctl in
+  let con := has_events || negb complete || mandatory s in
+  exists iin1 iin2,
+    o = [OInfo (IIdleRequest fn_read seq); ODb DbSelect; ODb DbWrite; ODb DbEvinfo;
+         OTx from ([ctl_byte true complete con false seq; 129; iin1; iin2] ++ body)]
+        ++ (if con then [OInfo (IEnterSolWait seq)] else []) /\
+    s_control s' = (if con then CSolWait {| se_ecsn := seq; se_fin := complete |} (s_now s + o_confirm_ms cfg) RStep2
+                    else s_control s).
+Proof. exact first_fragment. Qed.
+Print Assumptions C11_first_fragment.
+
+(* the same for a READ deferred during an unsolicited confirm wait *)
+Theorem C11_first_fragment_deferred : forall cfg s ns df v complete has_events body c1 c2 c3 ovf rest s' o,
+  s_deferred s = Some df -> df_seq df < 16 ->
+  s_answers s = AIin2 v :: AWrite complete has_events body :: AEvinfo c1 c2 c3 ovf :: rest ->
+  handle_deferred cfg s ns = (s', o) ->
+  let seq := df_seq df in
+  let con := has_events || negb complete || mandatory s in
+  exists iin1 iin2,
+    o = [ODb DbDeferredSelect; ODb DbWrite; ODb DbEvinfo;
+         OTx (df_from df) ([ctl_byte true complete con false seq; 129; iin1; iin2] ++ body)]
+        ++ (if con then [OInfo (IEnterSolWait seq)] else []) /\
+    s_control s' = (if con then CSolWait {| se_ecsn := seq; se_fin := complete |} (s_now s + o_confirm_ms cfg) (RStep4 ns)
+                    else s_control s).
+Proof. exact first_fragment_deferred. Qed.
+Print Assumptions C11_first_fragment_deferred.
+
+(* the expected confirm of a non-final fragment is answered at once with the next fragment: no FIR,
+   sequence number + 1 mod 16, FIN / CON from the database's verdict, a new wait with its own deadline *)
+Theorem C11_next_fragment_after_confirm :
+  forall cfg s from bytes d ctl obj se dl r complete has_events body c1 c2 c3 ovf rest s' o,
+  s_control s = CSolWait se dl r -> se_fin se = false ->
+  to_treq cfg from d = TqRequest ctl fn_confirm obj -> ctl_uns ctl = false -> ctl_seq ctl = se_ecsn se ->
+  s_answers s = AWrite complete has_events body :: AEvinfo c1 c2 c3 ovf :: rest ->
+  on_rx cfg s from None bytes d = (s', o) ->
+  let q := seq16_next (se_ecsn se) in
+  let con := has_events || negb complete in
+  exists iin1 iin2 tail,
+    o = [OInfo (ISolConfirmed (se_ecsn se)); ODb DbClearWritten; ODb DbWrite; ODb DbEvinfo;
+         OTx from ([ctl_byte false complete con false q; 129; iin1; iin2] ++ body)] ++ tail /\
+    (con = true -> tail = [] /\
+       s_control s' = CSolWait {| se_ecsn := q; se_fin := complete |} (s_now s + o_confirm_ms cfg) r).
+Proof. exact next_fragment_after_confirm. Qed.
+Print Assumptions C11_next_fragment_after_confirm.
+
+(* in the solicited confirm wait a fragment without FIR goes out only for the expected confirm (the next
+   fragment, to the confirming master) or for a repeat of the READ (the awaited fragment again); G s:
+   the invariants of reachable states (C11_reach_invariants) *)
+Theorem C11_next_fragment_only_after_confirm : forall cfg s ev ans s' o se dl r dest b,
+  G s -> ev_cons ev -> s_control s = CSolWait se dl r ->
+  ostep cfg s ev ans = (s', o) -> ~ In OOutOfFuel o ->
+  In (OTx dest b) o -> nth 1 b 0 = 129 -> c_fir (nth 0 b 0) = false ->
+  exists from bc bytes d, ev = ERx from bc bytes d /\
+    ((confirm_of cfg ev = Some (se_ecsn se, dest) /\ se_fin se = false /\
+      ctl_seq (nth 0 b 0) = seq16_next (se_ecsn se) /\ tx_bits_ok (nth 0 b 0) = true)
+     \/
+     (exists ctl fn obj hdrs rh l r0,
+        to_treq cfg from d = TqRequest ctl fn obj /\
+        classify s bc bytes ctl fn obj = FtRepeatRead (Some r0) hdrs rh /\
+        s_last s = Some l /\ lr_response l = Some r0 /\ ctl_seq (r_ctl r0) = se_ecsn se /\
+        dest = from /\ b = response_bytes r0 (s_sol_buf s))).
+Proof. exact next_fragment_only_after_confirm. Qed.
+Print Assumptions C11_next_fragment_only_after_confirm.
+
+(* outside the solicited confirm wait every solicited response transmitted has FIR *)
+Theorem C11_fir_outside_series : forall cfg s ev ans s' o,
+  G s -> nwait s -> ev_cons ev -> ostep cfg s ev ans = (s', o) -> ~ In OOutOfFuel o ->
+  Forall sol_tx_fir o.
+Proof. exact fir_outside_series. Qed.
+Print Assumptions C11_fir_outside_series.
+
+(* every history is accepted by the series monitor (SessionLemmas_c11.mon, read with the comment of
+   SessionC11Proofs.series_orderly), which is in phase POpen exactly while the session waits for a
+   solicited confirm *)
+Theorem C11_series_orderly : forall cfg s tr,
+  Trace cfg s tr ->
+  series_run cfg m0 tr = Dead \/ exists m, series_run cfg m0 tr = Live m /\ GoodB s m.
+Proof. exact series_orderly. Qed.
+Print Assumptions C11_series_orderly.
+
+Theorem C11_series_orderly_run : forall cfg sel op iin a evs,
+  Forall (fun p => ev_cons (fst p)) evs ->
+  series_run cfg m0 (snd (trace_of cfg sel op iin a evs)) <> Bad.
+Proof. exact series_orderly_run. Qed.
+Print Assumptions C11_series_orderly_run.
+
+Theorem C11_reach_invariants : forall cfg s tr,
+  Trace cfg s tr -> series_run cfg m0 tr <> Dead -> G s.
+Proof. exact reach_invariants. Qed.
+Print Assumptions C11_reach_invariants.
+
+(* the confirm timeout is per fragment: the deadline of the wait is o_confirm_ms after the last
+   transmission of the awaited fragment (the monitor computes it from the history alone) ... *)
+Theorem C11_deadline_is_per_fragment : forall cfg s tr m se dl r,
+  Trace cfg s tr -> series_run cfg m0 tr = Live m -> s_control s = CSolWait se dl r ->
+  m_ph m = POpen (se_ecsn se) (se_fin se) dl.
+Proof. exact deadline_is_per_fragment. Qed.
+Print Assumptions C11_deadline_is_per_fragment.
+
+(* ... nothing happens before it, and at it the wait ends: the rest of the series is never sent *)
+Theorem C11_sol_timeout_at_deadline : forall cfg f s target s' o se dl r,
+  advance (S f) cfg s target = (s', o) -> s_control s = CSolWait se dl r ->
+  ((target < dl)%Z -> o = [] /\ s' = upd_now s target) /\
+  ((dl <= target)%Z -> exists o',
+     o = OAt (Z.max dl (s_now s)) :: OInfo (ISolTimeout (se_ecsn se)) :: ODb DbReset :: o').
+Proof. exact sol_timeout_at_deadline. Qed.
+Print Assumptions C11_sol_timeout_at_deadline.
+
+Theorem C11_wait_deadline_on_rx : forall cfg s from bc bytes d se dl dl' o,
+  sol_wait_fragment cfg s se dl from bc bytes d = (SoStay dl', o) ->
+  (dl' = dl /\ forall dest b, ~ In (OTx dest b) o) \/ dl' = (s_now s + o_confirm_ms cfg)%Z.
+Proof. exact wait_deadline_on_rx. Qed.
+Print Assumptions C11_wait_deadline_on_rx.
+
+(* composed with the database model: the next fragment carries exactly what db_write_response produces
+   from the database as the confirm finds it, after clear_written_events - nothing is selected again *)
+Theorem C11_fevent_next_fragment : forall F st d from bytes dg ctl obj se dl r,
+  s_control (fs_s st) = CSolWait se dl r -> se_fin se = false ->
+  to_treq (f_o F) from dg = TqRequest ctl fn_confirm obj -> ctl_uns ctl = false -> ctl_seq ctl = se_ecsn se ->
+  let ro := fevent_out F st d (ERx from None bytes dg) in
+  ~ In FReplayError (ro_log ro) ->
+  let w := db_write_response (fst (db_clear_written d)) (N.of_nat (o_sol_tx (f_o F)) - 4) in
+  let body := fst (fst (snd w)) in
+  let has_events := snd (fst (snd w)) in
+  let complete := snd (snd w) in
+  exists iin1 iin2 tail more,
+    ro_answers ro = AWrite complete has_events body :: evinfo_answer_of (fst w) :: more /\
+    ro_out ro = [OInfo (ISolConfirmed (se_ecsn se)); ODb DbClearWritten; ODb DbWrite; ODb DbEvinfo;
+                 OTx from ([ctl_byte false complete (has_events || negb complete) false (seq16_next (se_ecsn se));
+                            129; iin1; iin2] ++ body)] ++ tail.
+Proof. exact fevent_next_fragment. Qed.
+Print Assumptions C11_fevent_next_fragment.
+
 (* ---- the hypotheses are satisfiable: a two-fragment series with an update in between ---- *)
 
 Definition ex_pc : pconfig := mkPc (Some Class1) G1V2 G2V1 0.
@@ -117,3 +266,19 @@ Proof. vm_compute. reflexivity. Qed.
 Example C11_ex_bytes :
   fst (snd (sdb_write ex_db 9)) = [1; 2; 1; 2; 0; 3; 0; 2; 129].
 Proof. vm_compute. reflexivity. Qed.
+
+(* ---- session level: a history with three series (three fragments and a repeated READ; a confirm
+   that never comes; a wrong confirm and a new request) is a Trace and the monitor accepts it ---- *)
+Example C11_ex_series :
+  Forall (fun p => ev_cons (fst p)) ex_hist /\
+  Trace ex_cfg (fst (trace_of ex_cfg 0 0 0 [] ex_hist)) ex_trace /\
+  series_run ex_cfg m0 ex_trace = Live {| m_ph := PSent 202; m_cur := None; m_clock := 6009 |} /\
+  concat (map tx_of ex_trace) =
+  [ (1, 161, 129, [1; 2; 0; 0; 1; 129; 129]); (1, 34, 129, [30; 2; 0; 5; 5; 1; 7; 0]);
+    (1, 34, 129, [30; 2; 0; 5; 5; 1; 7; 0]); (1, 67, 129, [10; 2; 0; 0; 0; 1]);
+    (1, 164, 129, [1; 2; 0; 0; 0; 129]); (1, 37, 129, [1; 2; 0; 1; 1; 129]);
+    (1, 169, 129, [2; 1; 23; 1; 0; 129]); (1, 202, 129, []) ].
+Proof.
+  split; [exact ex_hist_cons|]. split; [apply trace_of_Trace; exact ex_hist_cons|].
+  split; vm_compute; reflexivity.
+Qed.
